@@ -40,6 +40,19 @@ pub struct Planted {
     pub bytes: Vec<u8>,
 }
 
+/// a document of plain objects with a classic table
+pub fn build_doc(objs: &[(u64, Vec<u8>)], trailer_extra: &str) -> Vec<u8> {
+    let mut w = PdfWriter::new(b"", "1.7");
+    w.free(0, 0, 65535);
+    let mut max = 0;
+    for (id, body) in objs {
+        w.object(*id, 0, body);
+        max = max.max(*id);
+    }
+    w.finish(XrefFormat::Classic, max + 1, trailer_extra, &[], 0);
+    w.out
+}
+
 pub fn rf(id: u64) -> String {
     format!("{} 0 R", id)
 }
